@@ -13,6 +13,8 @@
 //	stale41      deterministic parked schedule: sync compares the live offset with a stale size (F17b) (stale.go)
 //	jsonparsers  unit: k8s / logfmt parsers' record boundaries and offsets vs the line reader model  (jsonp.go)
 //	leak50       deterministic: rotated / truncated file whose last line has no newline (F50)        (leak.go)
+//	gaps         deterministic: torn state file, file missing from one scan, stop while draining a rotated file,
+//	             replaced file regrown past the old offset (F60, F61, F62, F64)                       (gaps.go)
 package main
 
 import (
@@ -59,6 +61,8 @@ func dispatch(rp replayFile, verbose bool) bool {
 		replayJsonParsers(rp.Input)
 	case "leak50":
 		replayLeak50(rp.Input)
+	case "gaps":
+		replayGaps(rp.Input)
 	default:
 		return false
 	}
@@ -108,5 +112,6 @@ func main() {
 	sectionRecycle29(rng.Fork("recycle29"))
 	sectionStale41()
 	sectionLeak50()
+	sectionGaps()
 	res.Write(args.Out)
 }
